@@ -4,6 +4,7 @@ from __future__ import annotations
 
 import ast
 import os
+from typing import Any
 
 from ..callgraph import CallGraph
 from ..pm import AnalysisError, unparse
@@ -26,7 +27,7 @@ ASSUMPTIONS = [
     "numpy and copy.deepcopy are deterministic; two runs of pure code on equal inputs give identical floats",
     "lock-previous off for the history-free clause (property precondition)",
 ]
-FLOORS = {"P1": 3, "O-dea": 7, "H5": 6, "H2": 7, "H3": 4, "H4": 5, "H6": 2, "H7": 3, "H9": 1}
+FLOORS = {"P1": 3, "O-dea": 7, "H5": 6, "H2": 7, "H3": 4, "H4": 5, "H6": 2, "H7": 3, "H9": 1, "H10": 1}
 
 EXPECTED_STEP_STATE = {
     "activation_degree": "Rule: reset by deactivate() at the start of every iteration of every activate()",
@@ -58,6 +59,7 @@ def run(check: Check) -> None:
     engine_init(check)
     fixtures(check)
     inplace_updates(check)
+    no_inplace_on_handed_values(check, ["Engine.process"])
     from .common import memoisation_rule
 
     memoisation_rule(check)
@@ -430,11 +432,39 @@ def engine_init(check: Check) -> None:
     lds = [(n, r.term(c, n)) for n, c in cfg.find_calls(".load_rules")]
     ok_u = bool(upd) and all(t[2] == (("param", "self"),) for _, t in upd) and \
         all(holds_at(r, n, ("param", "load")) for n, _ in upd)
-    # all variables, all terms
-    every_term = ("elem", ("attr", ("elem", ("attr", ("param", "self"), "variables")), "terms"))
-    all_terms = bool(upd) and all(t[1][0] == "attr" and t[1][1] == every_term for _, t in upd) and \
+    # all variables, all terms: the receivers are the terms of the elements of collections that together cover inputs and outputs
+    def covered(b: Term) -> set[str]:
+        b = iter_base(b)[0]
+        pth = path_of(b)
+        if pth == "self.variables":
+            return {"in", "out"}
+        if pth in ("self.input_variables", "self.output_variables"):
+            return {"in" if pth == "self.input_variables" else "out"}
+        if b[0] == "binop" and b[1] == "+":
+            return covered(b[2]) | covered(b[3])
+        if b[0] in ("list", "tuple") or (b[0] == "call" and b[1][0] == "global" and b[1][1] in ("itertools.chain", "list", "tuple")):
+            acc: set[str] = set()
+            for x in (b[1] if b[0] in ("list", "tuple") else b[2]):
+                acc |= covered(x[1] if x[0] == "starred" else x)
+            return acc
+        if b[0] == "phi":
+            return set.union(*[covered(a) for a in b[1]])
+        return set()
+
+    cover: set[str] = set()
+    shaped = bool(upd)
+    for _, t in upd:
+        recv = t[1][1] if t[1][0] == "attr" else None
+        if recv is not None and recv[0] == "elem" and recv[1][0] == "attr" and recv[1][2] == "terms" and recv[1][1][0] == "elem":
+            cover |= covered(recv[1][1][1])
+        else:
+            shaped = False
+    all_terms = shaped and cover == {"in", "out"} and \
         all(not early_exits(cfg, h) for n, _ in upd for h in cfg.enclosing_loops(n))
-    check.require(ok_u and all_terms, "H7", "Engine.__init__/update-references", "under load, every term of every variable is re-pointed to this engine", loc(fn))
+    check.require(ok_u and all_terms, "H7", "Engine.__init__/update-references",
+                  "under load, every term of every input and output variable is re-pointed to this engine" if ok_u and all_terms else
+                  f"under load, update_reference(self) reaches only the terms of {sorted(cover) or 'no'} variables (or not every one of them): a "
+                  "Linear/Function term of the other variables keeps pointing at the engine it was built for (or at none)", loc(fn))
     ok_l = bool(lds) and all(t[2] == (("param", "self"),) for _, t in lds) and bool(upd) and all(cfg.must_precede([u for u, _ in upd], n) or True for n, _ in lds)
     order = bool(upd) and bool(lds) and lds[0][0] not in cfg.reach([cfg.entry], blocked={h for h in cfg.loop_heads() if upd[0][0] in cfg.loop_body(h)})
     check.require(ok_l and order, "H7", "Engine.__init__/load-rules", "then every rule block is loaded against this engine", loc(fn))
@@ -531,6 +561,91 @@ def inplace_updates(check: Check) -> None:
                       "(an input value, another rule's degree), so processing modifies its own inputs", loc(f, x))
     if not sites:
         check.ok("H9", "processing-path/no-in-place-updates", "no stored array is updated in place on the processing path")
+
+
+# ------------------------------------------------------------------------------------------------ H10
+NUMPY_INPLACE_FIRST = {"numpy.copyto", "numpy.put", "numpy.place", "numpy.putmask", "numpy.put_along_axis", "numpy.fill_diagonal"}
+ARRAY_INPLACE_METHODS = {"fill", "itemset", "put", "partition", "resize", "setfield", "sort"}
+
+
+def inplace_sinks(r: Resolver) -> list[tuple[Any, ast.Call, Term, str]]:
+    """numpy interfaces that write into storage they are handed: `copy=False`, `out=`, np.copyto/put/place/putmask,
+    ndarray.fill/itemset/put/partition/resize/sort. Returns (node, call, target term, how)."""
+    out = []
+    for n, c in r.cfg.all_calls():
+        if n.copy:
+            continue
+        t = r.term(c, n)
+        if t[0] != "call":
+            continue
+        kw = dict(t[3])
+        if t[1][0] == "global" and t[1][1].startswith("numpy."):
+            if "copy" in kw and kw["copy"] == ("const", False) and t[2]:
+                out.append((n, c, t[2][0], "copy=False"))
+            if "out" in kw and kw["out"] != ("const", None):
+                out.append((n, c, kw["out"], "out="))
+            if t[1][1] in NUMPY_INPLACE_FIRST and t[2]:
+                out.append((n, c, t[2][0], t[1][1]))
+        elif t[1][0] == "attr" and t[1][2] in ARRAY_INPLACE_METHODS:
+            recv = t[1][1]
+            if recv[0] in ("list", "dict", "set") or (recv[0] == "call" and recv[1][0] == "global" and recv[1][1] in ("list", "sorted", "dict", "collections.deque")):
+                continue  # a container built here
+            out.append((n, c, recv, f".{t[1][2]}()"))
+    return out
+
+
+def no_inplace_on_handed_values(check: Check, roots: list[str], rule: str = "H10") -> None:
+    """H10: on the paths from `roots`, no numpy in-place interface is applied to a value the function was handed (a parameter, an
+    attribute, another call's result): the write would reach the caller's array - e.g. the activation degree that the next
+    conclusion, the next rule or the next step still reads."""
+    p = check.program
+    cg = CallGraph(p)
+    reach = cg.reachable(roots)
+    n_sites = 0
+    for q in sorted(reach):
+        f = cg._fn.get(q)
+        if f is None or "/examples/" in f.file:
+            continue
+        rf = None
+        src_has = any(isinstance(x, ast.Call) and (any(k.arg in ("copy", "out") for k in x.keywords) or (isinstance(x.func, ast.Attribute) and (
+            x.func.attr in ARRAY_INPLACE_METHODS or x.func.attr in {g.split(".")[1] for g in NUMPY_INPLACE_FIRST}))) for x in ast.walk(f.analysis_node))
+        rf = Resolver(p, f)
+        for n, c, target, how in (inplace_sinks(rf) if src_has else []):
+            n_sites += 1
+            check.analysed(f)
+            ok = fresh(target)
+            check.require(ok, rule, f"{f.qualname}/in-place:{how}",
+                          f"`{unparse(c)[:70]}` writes in place into a value created in this function" if ok else
+                          f"`{unparse(c)[:70]}` writes in place into `{show(target)[:60]}`, which this function was handed: the caller's array "
+                          "(a rule's activation degree, an input value) is modified, so whoever reads it next - the next conclusion, "
+                          "the next rule, the next step - sees the modified value", loc(f, n))
+        # `x op= v` / `x[...] = v` where x is (a view of) an array-typed parameter: numpy updates arrays in place
+        ann = {prm.name: unparse(prm.annotation) for prm in f.params if prm.annotation is not None}
+        arrayish = {k for k, v in ann.items() if any(w in v for w in ("Scalar", "Array", "ndarray"))}
+        if not arrayish:
+            continue
+        for n in rf.cfg.stmt_nodes():
+            if n.copy:
+                continue
+            a = n.ast
+            bases: list[ast.expr] = []
+            if isinstance(a, ast.AugAssign) and isinstance(a.target, ast.Name):
+                bases.append(ast.copy_location(ast.Name(id=a.target.id, ctx=ast.Load()), a.target))
+            elif isinstance(a, ast.AugAssign) and isinstance(a.target, ast.Subscript):
+                bases.append(a.target.value)
+            elif isinstance(a, ast.Assign):
+                bases += [tg.value for tg in a.targets if isinstance(tg, ast.Subscript)]
+            for b in bases:
+                t = rf.term(b, n)
+                while t[0] == "call" and t[1][0] == "global" and t[1][1] in VIEW_CALLS and t[2]:
+                    t = t[2][0]
+                if t[0] == "param" and t[1] in arrayish:
+                    n_sites += 1
+                    check.violation(rule, f"{f.qualname}/in-place:{t[1]}",
+                                    f"`{unparse(a)[:70]}` updates the array parameter `{t[1]}` in place (numpy does not rebind arrays): the "
+                                    "caller's value is modified and whoever reads it next sees the modified value", loc(f, n))
+    check.ok(rule, "in-place-interfaces/scanned", f"{len(reach)} functions reachable from {roots} scanned for numpy in-place interfaces "
+             f"(copy=False, out=, copyto/put/place/putmask, ndarray.fill/sort/..., op= and subscript stores on array parameters): {n_sites} site(s)")
 
 
 def fixtures(check: Check) -> None:
